@@ -32,7 +32,8 @@ Record ldecl := mk_ldecl {
   ld_max_rx : Z; ld_max_flows : Z;
   ld_cert : Z;                              (* listener-level certificate+key, pool index or -1 *)
   ld_alpn : option (list bytes);
-  ld_pay : list tok }.
+  ld_pay : list tok;
+  ld_ext : list tok }.                      (* x_real_ip flags, answers, tls versions, ciphers, tickets: as declared, defaults filled *)
 
 Record fdecl := mk_fdecl {
   fd_addr : bytes; fd_host : option bytes; fd_path : option bytes; fd_kind : Z;
@@ -61,7 +62,7 @@ Record lst := mk_lst {
   l_kind : Z; l_addr : bytes; l_active : bool; l_expect : bool; l_public : option bytes;
   l_ft : Z; l_bt : Z; l_ct : Z; l_rt : Z; l_sticky : option bytes; l_dh11 : Z;
   l_hsts : Z; l_hsts_age : Z; l_max_rx : Z; l_max_flows : Z; l_cert : Z;
-  l_alpn : list bytes; l_pay : list tok }.
+  l_alpn : list bytes; l_pay : list tok; l_ext : list tok }.
 
 Record clu := mk_clu {
   c_id : bytes; c_sticky : bool; c_redirect : bool; c_pp : Z; c_lb : Z; c_lm : Z; c_http2 : Z;
@@ -131,7 +132,8 @@ Definition lkey (l : lst) : list tok := lkey_of (l_kind l) (l_addr l).
 Definition ckey (c : clu) : list tok := [TB (c_id c)].
 Definition fkey (f : front) : list tok :=
   [tn_bool (f_https f); TB (f_addr f); TB (f_host f); TN (f_kind f); TB (f_path f); ob (f_method f)].
-Definition tkey (t : tfront) : list tok := [tn_bool (t_udp t); TB (t_cluster t); TB (t_addr t)] ++ t_tags t.
+(* one TCP/UDP frontend per (cluster, address), whatever the tags (state.rs since 571342c) *)
+Definition tkey (t : tfront) : list tok := [tn_bool (t_udp t); TB (t_cluster t); TB (t_addr t)].
 Definition bkey (b : backend) : list tok := [TB (b_cluster b); TB (b_id b); TB (b_addr b)].
 Definition certkey (c : bytes * Z) : list tok := [TB (fst c); TN (snd c)].
 
@@ -170,7 +172,7 @@ Definition build_listener (d : decl) (l : ldecl) : res lst :=
   let sticky := Some (match ld_sticky l with Some s => s | None => default_sticky_name end) in
   if ld_proto l =? 0 then
     if negb (ld_hsts l =? -1) then Err EHstsOnPlainHttp
-    else Ok (mk_lst 0 (ld_addr l) false expect (ld_public l) ft bt ct rt sticky (-1) (-1) (-1) (-1) (-1) (-1) [] (ld_pay l))
+    else Ok (mk_lst 0 (ld_addr l) false expect (ld_public l) ft bt ct rt sticky (-1) (-1) (-1) (-1) (-1) (-1) [] (ld_pay l) (ld_ext l))
   else if ld_proto l =? 1 then
     match resolve_alpn l with
     | Err e => Err e
@@ -180,22 +182,23 @@ Definition build_listener (d : decl) (l : ldecl) : res lst :=
         let age := if (ld_hsts l =? 1) && (ld_hsts_age l <? 0) then default_hsts_max_age else ld_hsts_age l in
         let age := if ld_hsts l =? -1 then -1 else age in
         Ok (mk_lst 1 (ld_addr l) false expect (ld_public l) ft bt ct rt sticky (ld_dh11 l) (ld_hsts l) age (-1) (-1)
-                   (ld_cert l) alpn (ld_pay l))
+                   (ld_cert l) alpn (ld_pay l) (ld_ext l))
     end
   else if ld_proto l =? 2 then
     Ok (mk_lst 2 (ld_addr l) false expect (ld_public l) ft bt ct (-1) None (-1) (-1) (-1) (-1) (-1) (-1) []
-               (blank_pay (List.length (ld_pay l))))
+               (blank_pay (List.length (ld_pay l))) [])
   else
     let rx := dflt (ld_max_rx l) default_udp_max_rx in
     let rx := if buffer_of d <? rx then buffer_of d else rx in
     Ok (mk_lst 3 (ld_addr l) false false (ld_public l)
                (dflt (ld_ft l) default_udp_front_timeout) (dflt (ld_bt l) default_udp_back_timeout) (-1) (-1)
                None (-1) (-1) (-1) rx (dflt (ld_max_flows l) default_udp_max_flows) (-1) []
-               (blank_pay (List.length (ld_pay l)))).
+               (blank_pay (List.length (ld_pay l))) []).
 
 (** [ListenerBuilder::new(address, protocol)] built with the global timeouts *)
 Definition default_ldecl (addr : bytes) (proto : Z) : ldecl :=
-  mk_ldecl addr proto (-1) None (-1) (-1) (-1) (-1) None (-1) (-1) (-1) (-1) (-1) (-1) None (blank_pay pay_len).
+  mk_ldecl addr proto (-1) None (-1) (-1) (-1) (-1) None (-1) (-1) (-1) (-1) (-1) (-1) None (blank_pay pay_len)
+           (if proto =? 0 then default_ext_http else if proto =? 1 then default_ext_https else []).
 
 (** loader state while listeners and clusters are populated *)
 Record lstate := mk_lstate {
@@ -243,7 +246,7 @@ Fixpoint populate_listeners (d : decl) (ls : list ldecl) (st : lstate) : res lst
 
 (** [FileClusterConfig::to_cluster_config], TCP arm: the expect_proxy agreement
     check comes before [to_tcp_front] of the same frontend, the duplicate check after it *)
-Definition tkey0 (t : tfront) : list tok := [TB (t_cluster t); TB (t_addr t)] ++ t_tags t.
+Definition tkey0 (t : tfront) : list tok := [TB (t_cluster t); TB (t_addr t)].
 
 Fixpoint tcp_fronts_conv (expects : list bytes) (has : option bool) (cid : bytes) (seen : list (list tok)) (fs : list fdecl)
   : res (list tfront * option bool) :=
@@ -534,7 +537,7 @@ Definition add_skip {A} (key : A -> list tok) (x : A) (l : list A) : list A * dr
 
 Definition set_active (l : lst) : lst :=
   mk_lst (l_kind l) (l_addr l) true (l_expect l) (l_public l) (l_ft l) (l_bt l) (l_ct l) (l_rt l) (l_sticky l) (l_dh11 l)
-         (l_hsts l) (l_hsts_age l) (l_max_rx l) (l_max_flows l) (l_cert l) (l_alpn l) (l_pay l).
+         (l_hsts l) (l_hsts_age l) (l_max_rx l) (l_max_flows l) (l_cert l) (l_alpn l) (l_pay l) (l_ext l).
 
 Definition activate (k : list tok) (l : list lst) : list lst * dres :=
   if has lkey k l then (map (fun y => if toks_eqb (lkey y) k then set_active y else y) l, DOk)
